@@ -707,11 +707,10 @@ def validateReferences (L : Ledger) (tx : Tx) : M Unit := do
   guardRej (tx.references.any (fun r => match L.tx r with
     | some t => !t.finalized | none => true))
 
-/-- `VersionedTransaction.Validate`, result = (input amount, output amount) -/
-def validateM (L : Ledger) (O : Oracle) (tx : Tx) (fork : Bool) : M (Nat × Nat) := do
-  let tt := txType tx
+/-- the checks of `Validate` that read the transaction only -/
+def structural (tx : Tx) : M Unit := do
   guardRej (tx.version != common_TxVersionHashSignature)
-  guardRej (tt == ttUnknown)
+  guardRej (txType tx == ttUnknown)
   guardRej (tx.inputs.length < 1 || tx.outputs.length < 1)
   guardRej (tx.inputs.length > sliceCountLimit || tx.outputs.length > sliceCountLimit ||
     tx.references.length > sliceCountLimit)
@@ -722,15 +721,23 @@ def validateM (L : Ledger) (O : Oracle) (tx : Tx) (fork : Bool) : M (Nat × Nat)
   -- the re-decode refuses more than TransactionMaximumSize bytes
   guardPan (tx.payloadSize > txMaxSize) .Validate
   guardRej (tx.payloadSize > txMaxSize)
+
+/-- aggregate signature excludes a signature map; otherwise one map per input (node remove aside) -/
+def sigPresence (tx : Tx) (tt : Nat) : M Unit :=
   match tx.agg with
   | some _ => guardRej tx.sigs.isSome
   | none => guardRej (tx.inputs.length != (tx.sigs.getD []).length && tt != ttNodeRemove)
+
+/-- `VersionedTransaction.Validate`, result = (input amount, output amount) -/
+def validateM (L : Ledger) (O : Oracle) (tx : Tx) (fork : Bool) : M (Nat × Nat) := do
+  structural tx
+  sigPresence tx (txType tx)
   validateReferences L tx
-  let (f, inAmt) ← validateInputs L O tx tt fork
-  guardRej (inAmt == 0)
-  let outAmt ← validateOutputs L O tx inAmt
-  dispatch L O tx tt f
-  pure (inAmt, outAmt)
+  let r ← validateInputs L O tx (txType tx) fork
+  guardRej (r.2 == 0)
+  let outAmt ← validateOutputs L O tx r.2
+  dispatch L O tx (txType tx) r.1
+  pure (r.2, outAmt)
 
 def validate (L : Ledger) (O : Oracle) (tx : Tx) (fork : Bool) : Outcome :=
   match validateM L O tx fork with
